@@ -809,6 +809,21 @@ def check_exclusion_mechanisms(p, report, funcs, facts):
         ex_all = [(n, b, k) for (n, b, k) in ex if cond_context(tree, n if isinstance(n, ast.stmt) else tree.stmt_of(n), L, counters) <= s_ctx]
         partial = bool(ex) and not ex_all
         ex = ex_all
+        # a mask written into the row of THIS iteration (array indexed by the loop counter) after this
+        # iteration's selection excludes nothing: the next iteration works on another row
+        late_row = []
+        for (n, b, k) in list(ex):
+            n_st = n if isinstance(n, ast.stmt) else tree.stmt_of(n)
+            if k == "M1" and isinstance(n_st, ast.Assign) and not dominates(tree, n_st, s_stmt):
+                t = n_st.targets[0]
+                inner = t
+                while isinstance(inner, ast.Subscript) and isinstance(inner.value, ast.Subscript):
+                    inner = inner.value
+                first = inner.slice.elts[0] if isinstance(inner.slice, ast.Tuple) and inner.slice.elts else inner.slice
+                if counters and (names_in(first) & counters) and (inner is not t or isinstance(inner.slice, ast.Tuple)):
+                    late_row.append((n, b, k))
+        if late_row:
+            ex = [x for x in ex if x not in late_row]
         # a mask that is overwritten by a later store into the same array
         # before the selection does not exclude anything
         overwritten = []
@@ -864,7 +879,9 @@ def check_exclusion_mechanisms(p, report, funcs, facts):
             ("M3: zero sampling mass at distance-to-selected" if sampling_m3 else ""))
         report.add("R1.4m", ent, construct, f"{f.file}:{S.lineno}", okm,
                    detail=("exclusion mechanism " + mech) if okm else
-                   ("the mask of earlier picks is overwritten by a later store into the same array before the selection"
+                   ("the mask of earlier picks is written into this iteration's own row after the selection: it never "
+                    "takes part in a selection" if (late_row and not ex) else
+                    "the mask of earlier picks is overwritten by a later store into the same array before the selection"
                     if ex_overwritten else
                     "the exclusion of earlier picks happens only on some paths to the selection (inside a branch the "
                     "selection is not under)" if partial else
@@ -1075,6 +1092,12 @@ def check_nan_discipline(p, report, f, ff):
             for t in n.targets:
                 if isinstance(t, ast.Name):
                     defs.setdefault(t.id, []).append(n)
+    # locals that hold the number of samples (role, not name): n = len(X) / X.shape[0] / len(y) / y.shape[0]
+    size_names = set()
+    for nm, ds in defs.items():
+        if len(ds) == 1 and ast.unparse(ds[0].value).replace(" ", "") in (
+                "len(X)", "X.shape[0]", "len(y)", "y.shape[0]", "np.size(X,0)", "np.size(y,0)"):
+            size_names.add(nm)
     for n in ast.walk(fnode):
         if not isinstance(n, ast.Assign):
             continue
@@ -1104,7 +1127,8 @@ def check_nan_discipline(p, report, f, ff):
             construct = f"scatter `{norm_stmt(n, 90)}`"
             shape_txt = " ".join(ast.unparse(d.value) for _, d in kinds)
             xrow = ("len(X)" in shape_txt) or ("X.shape[0]" in shape_txt) or ("len(y)" in shape_txt) \
-                or ("n_samples" in shape_txt)
+                or ("n_samples" in shape_txt) or any(
+                    isinstance(x, ast.Name) and x.id in size_names for _, d in kinds for x in ast.walk(d.value))
             if not xrow:
                 continue
             if not is_scatter:
